@@ -18,8 +18,9 @@ go test $MODFLAG -tags verif -c -o /tmp/devroot/bin/run.test ./props/run || exit
 for c in mrp mrjob mro; do (cd ${VERIF_REPO:-/repo} && go build -tags verif -o /tmp/devroot/bin/$c ./cmd/$c) || exit 2; done
 for c in stagebin dumpargs; do go build $MODFLAG -tags verif -o /tmp/devroot/bin/$c ./cmd/$c || exit 2; done
 rm -rf /tmp/devrun && mkdir -p /tmp/devrun
+T0=$(date +%s)
 for s in "$@"; do
-  (cd /tmp/devrun && mkdir -p cwd$s && cd cwd$s && VERIF_LEVEL=$L VERIF_WORK=/dev/shm/devrun/work$s timeout 1500 /tmp/devroot/bin/run.test -test.run "$T" -rapid.checks=$N -rapid.seed=$s -rapid.shrinktime=60s > /tmp/devrun/log$s 2>&1; echo "seed $s rc=$?" >> /tmp/devrun/done) &
+  (cd /tmp/devrun && mkdir -p cwd$s && cd cwd$s && VERIF_STATS_OUT=/tmp/devrun/stats$s.json VERIF_LEVEL=$L VERIF_WORK=/dev/shm/devrun/work$s timeout 1500 /tmp/devroot/bin/run.test -test.run "$T" -rapid.checks=$N -rapid.seed=$s -rapid.shrinktime=60s > /tmp/devrun/log$s 2>&1; echo "seed $s rc=$? $(( $(date +%s) - T0 ))s" >> /tmp/devrun/done) &
 done
 wait
 cat /tmp/devrun/done
